@@ -633,6 +633,7 @@ func (cl *Client) produce(
 		p.blocked.Add(1)
 		p.blockedBytes += userSize
 		p.mu.Unlock()
+		verifPoint("produce.blocked")
 
 		cl.cfg.logger.Log(LogLevelDebug, "blocking Produce because we are either over max buffered records or max buffered bytes",
 			"over_max_records", overMaxRecs,
@@ -678,6 +679,7 @@ func (cl *Client) produce(
 			}()
 			<-wait // we wait for the goroutine to exit, then unlock again (since the goroutine leaves the mutex locked)
 			p.mu.Unlock()
+			verifPoint("produce.cancel.prebroadcast")
 			// The goroutine above decremented p.blocked, but this is the
 			// cancel path: the record is failed, not buffered, so there is
 			// no compensating bufferedRecords++ (the success path below
@@ -709,6 +711,7 @@ func (cl *Client) produce(
 	p.bufferedRecords++
 	p.bufferedBytes += userSize
 	p.mu.Unlock()
+	verifPoint("produce.admitted")
 
 	// Set at buffer time, before any produce reaches the broker, so this can
 	// over-set: a record counted here may still be failed locally (client
@@ -745,6 +748,7 @@ type batchPromise struct {
 // holder waits on the worker.
 func (p *producer) promiseBatch(b batchPromise) {
 	if first, _ := p.batchPromises.pushForce(b); first {
+		verifPoint("promise.first")
 		go p.finishPromises(b)
 	}
 }
@@ -831,6 +835,7 @@ start:
 		broadcast = false
 	}
 
+	verifPoint("promise.predrop")
 	b, more, _ = p.batchPromises.dropPeek()
 	if more {
 		goto start
@@ -853,6 +858,7 @@ func (cl *Client) finishRecordPromise(pr promisedRec, err error, beforeBuffering
 	// time we notify flush below.
 	userSize := pr.userSize()
 	pr.promise(pr.Record, err)
+	verifPoint("promise.postcall")
 
 	// If this record was never buffered, it's size was never accounted
 	// for on any p field: return early.
